@@ -9,6 +9,7 @@ from .util import build, MODEL_NAMES
 def gen_pred_case(rng, model=None, regime=None, kmax=8, pmax=8):
     model = model or rng.choice(MODEL_NAMES)
     cfg = gen.gen_cfg(rng)
+    explicit = regime is not None
     regime = regime or rng.choice(["typical", "typical", "wide", "mismatch", "tiny_sigma", "huge_sigma", "corners",
                                    "identical", "equal_size"])
     teams, regime = gen.gen_teams(rng, cfg["beta"], kmax=kmax, pmax=pmax, regime=regime)
@@ -30,6 +31,18 @@ def gen_pred_case(rng, model=None, regime=None, kmax=8, pmax=8):
         step = rng.choice(["ulp", 1e-15, 1e-12, 1e-10, 3e-10, 1e-9])
         teams[j][w][0] = math.nextafter(mu, math.inf) if step == "ulp" else mu + max(abs(mu), cfg["beta"]) * step * rng.choice([1, -1])
         regime = "near_identical"
+    if not explicit and rng.random() < 0.05:
+        # sigma -> 0 (the stated range of the predictions includes it): certain players, sigma exactly 0 or far below
+        # 1e-4 beta, half of the games between exactly level teams - predict_draw of two level single players is then 1
+        # up to rounding, the supremum of the two-team form
+        b = cfg["beta"]
+        k = min(kmax, rng.choice([2, 2, 2, 3, 4]))
+        n = min(pmax, rng.choice([1, 1, 1, 2]))
+        mu = rng.uniform(-20 * b, 20 * b) / n
+        level = rng.random() < 0.5
+        teams = [[[mu if level else rng.uniform(-20 * b, 20 * b) / n, rng.choice([0.0, 0, 1e-12 * b, 1e-9 * b, 1e-6 * b]), f"z{i}_{j}"]
+                  for j in range(n)] for i in range(k)]
+        regime = "vanishing_sigma"
     case = dict(model=model, cfg=cfg, teams=teams, sel=None, vals=None, call={})
     if rng.random() < 0.1:
         case["ids"] = "shared"  # distinct objects carrying the same id string (deepcopy clones keep the id)
